@@ -26,6 +26,11 @@ type script struct {
 	Unconf   bool   `json:"unconfirmed"`
 	Large    bool   `json:"large"` // amounts that need two outputs on each side
 	Fault    string `json:"fault"`
+	// Zero: the host's share is zero (collateral 0): it funds and reserves nothing
+	Zero bool `json:"zero,omitempty"`
+	// Mid: something happens while the exchange is parked between the host's inputs and
+	// the renter's signatures, then it goes on: "block" = two blocks are mined on the host
+	Mid string `json:"mid,omitempty"`
 	// Unmined: renew / refresh a contract whose formation transaction is still in the
 	// pool: the host knows the contract but has no state element for it yet
 	Unmined bool `json:"unmined,omitempty"`
@@ -45,6 +50,12 @@ func (s script) String() string {
 	if s.Unmined {
 		x += "/unmined"
 	}
+	if s.Zero {
+		x += "/zero-host-cost"
+	}
+	if s.Mid != "" {
+		x += "/mid-" + s.Mid
+	}
 	return x
 }
 
@@ -55,6 +66,9 @@ var allFaults = []string{
 	"req-invalid-params", "req-bad-challenge", "req-unknown-contract", "req-wrong-renter-key", "req-foreign-input",
 	"sig-bad-contract", "sig-bad-renewal", "sig-bad-input", "sig-policy-count",
 	"host-not-accepting", "host-no-funds", "elem-lookup-fail",
+	"trunc1", "trunc2", "trunc3", "trunc4",
+	"req-inputs-overflow", "req-huge-allowance", "req-no-inputs", "req-zero-fee", "resp-inputs-overflow",
+	"with-parked",
 	"resp-inputs-short", "final-empty", "final-bad-sig", "final-bad-renewal-sig", "final-txid",
 }
 
@@ -69,7 +83,7 @@ func applicable(s script) bool {
 		return s.Unconf
 	case "req-underfund":
 		return !s.Unconf
-	case "req-foreign-input":
+	case "req-foreign-input", "with-parked":
 		// needs a second exchange whose host inputs stay reserved meanwhile
 		return s.Relation == "same" || s.Relation == "behind" || s.Relation == "fork-ok" || s.Relation == "wallet-behind"
 	}
@@ -87,6 +101,18 @@ func planOf(s script) plan {
 		p.Cut = 3
 	case "cut4":
 		p.Cut = 4
+	case "trunc1":
+		p.Trunc = 1
+	case "trunc2":
+		p.Trunc = 2
+	case "trunc3":
+		p.Trunc = 3
+	case "trunc4":
+		p.Trunc = 4
+	case "req-inputs-overflow", "req-huge-allowance", "req-no-inputs", "req-zero-fee":
+		p.T1 = s.Fault
+	case "resp-inputs-overflow":
+		p.T2 = s.Fault
 	case "dial-fail":
 		p.DialFail = true
 	case "write1-fail":
@@ -189,6 +215,9 @@ type outcome struct {
 	Signer    *recSigner
 	RenterErr error
 	Streams   int // host streams opened during the attempt
+	// RenterPanic: the renter function panicked (recovered by the harness)
+	RenterPanic any
+	HostTipEnd  types.ChainIndex // the host chain manager's tip when the attempt was over
 	// a second exchange that was parked with its host inputs reserved while
 	// this attempt ran (fault req-foreign-input)
 	Held                  *held
@@ -236,6 +265,9 @@ func (w *world) amounts(s script, existing types.V2FileContract) (allowance, col
 		if !s.Unconf {
 			allowance = maxValue(w.renterNode(s).avail()).Add(types.Siacoins(500))
 		}
+	}
+	if s.Zero && s.Fault != "req-underfund" {
+		collateral = types.ZeroCurrency
 	}
 	if s.Fault == "host-no-funds" {
 		b, _ := w.H.w.Balance()
@@ -299,56 +331,28 @@ func (hb *held) finish() {
 	hb.m.wait()
 }
 
-// run executes one attempt; the world must already be in the script's relation.
-func (w *world) run(s script) *outcome {
-	w.attemptNo++
-	o := &outcome{Script: s, No: w.attemptNo}
-	ctx, cancel := context.WithTimeout(context.Background(), 20*time.Second)
-	defer cancel()
-
-	settings, err := rhp4.RPCSettings(ctx, w.client)
-	must(err)
-	w.trk.waitIdle(0)
-	o.Settings = settings
-	rn := w.renterNode(s)
-	o.CS, o.HostCS = w.cmR.TipState(), w.cmH.TipState()
-	o.HostWalletTip, _ = w.H.ws.Tip()
-
-	if s.Kind != "form" {
-		o.Existing = w.contracts[len(w.contracts)-1]
-	}
-	allowance, collateral := w.amounts(s, o.Existing.Revision)
-
-	if s.Fault == "elem-lookup-fail" {
-		w.rc.failElement = true
-		defer func() { w.rc.failElement = false }()
-	}
-	if s.Fault == "host-not-accepting" {
-		hs := w.base
-		hs.AcceptingContracts = false
-		w.settings.Update(hs)
-		defer w.settings.Update(w.base)
-	}
-
-	signer := &recSigner{w: rn.w, key: w.renterKey}
-	pool := &failingPool{inner: w.cmR, fail: s.Fault == "txset-fail"}
-	m := &mitm{inner: w.client, kind: s.Kind, partial: s.Partial, plan: planOf(s)}
-	m.tamper = func(stage int, name string, wr *wire) { w.tamper(o, stage, name, wr) }
-	o.M, o.Signer = m, signer
-
-	outstanding := 0
-	if s.Fault == "req-foreign-input" {
-		o.HeldBefore = w.H.avail()
-		w.log.reset()
-		if o.Held = w.startHeld(ctx, settings); o.Held != nil {
-			outstanding = 1
+// settle waits until the parked host handler has made the calls it makes before it
+// reads the renter's signatures.
+func (w *world) settle() {
+	for deadline := time.Now().Add(5 * time.Second); time.Now().Before(deadline); time.Sleep(100 * time.Microsecond) {
+		calls := strings.Join(w.log.snapshot().calls, ";")
+		if (strings.Contains(calls, "CFund") || strings.Contains(calls, "CElement false")) && (w.rel == "same" || strings.Contains(calls, "CUpdate")) {
+			break
 		}
 	}
-	o.HostBefore, o.RenterBefore = w.H.avail(), rn.avail()
-	o.HostBal0, o.RenterBal0 = bal(w.H), bal(rn)
-	w.log.reset()
-	n0 := w.trk.count()
+	time.Sleep(time.Millisecond)
+}
 
+// call runs the real renter function of the script's kind; a panic in it is recovered
+// and recorded (the caller's reservations are judged like after any failed call).
+func (w *world) call(ctx context.Context, o *outcome, rn *walletNode, m *mitm, pool rhp4.TxPool, signer rhp4.FormContractSigner, settings proto4.HostSettings, allowance, collateral types.Currency) {
+	s := o.Script
+	defer func() {
+		if p := recover(); p != nil {
+			o.RenterPanic = p
+			o.RenterErr = fmt.Errorf("the renter function panicked: %v", p)
+		}
+	}()
 	switch s.Kind {
 	case "form":
 		p := proto4.RPCFormContractParams{
@@ -399,6 +403,82 @@ func (w *world) run(s script) *outcome {
 		}
 		o.RenterErr, o.ResContract, o.ResSet, o.RenterCost = err, res.Contract, res.RenewalSet, res.Cost
 	}
+}
+
+// run executes one attempt; the world must already be in the script's relation.
+func (w *world) run(s script) *outcome {
+	w.attemptNo++
+	o := &outcome{Script: s, No: w.attemptNo}
+	ctx, cancel := context.WithTimeout(context.Background(), 20*time.Second)
+	defer cancel()
+
+	settings, err := rhp4.RPCSettings(ctx, w.client)
+	must(err)
+	w.trk.waitIdle(0)
+	o.Settings = settings
+	rn := w.renterNode(s)
+	o.CS, o.HostCS = w.cmR.TipState(), w.cmH.TipState()
+	o.HostWalletTip, _ = w.H.ws.Tip()
+
+	if s.Kind != "form" {
+		o.Existing = w.contracts[len(w.contracts)-1]
+	}
+	allowance, collateral := w.amounts(s, o.Existing.Revision)
+
+	if s.Fault == "elem-lookup-fail" {
+		w.rc.failElement = true
+		defer func() { w.rc.failElement = false }()
+	}
+	if s.Fault == "host-not-accepting" {
+		hs := w.base
+		hs.AcceptingContracts = false
+		w.settings.Update(hs)
+		defer w.settings.Update(w.base)
+	}
+
+	signer := &recSigner{w: rn.w, key: w.renterKey}
+	pool := &failingPool{inner: w.cmR, fail: s.Fault == "txset-fail"}
+	m := &mitm{inner: w.client, kind: s.Kind, partial: s.Partial, plan: planOf(s)}
+	m.tamper = func(stage int, name string, wr *wire) { w.tamper(o, stage, name, wr) }
+	o.M, o.Signer = m, signer
+
+	outstanding := 0
+	if s.Fault == "req-foreign-input" || s.Fault == "with-parked" {
+		o.HeldBefore = w.H.avail()
+		w.log.reset()
+		if o.Held = w.startHeld(ctx, settings); o.Held != nil {
+			outstanding = 1
+		}
+	}
+	o.HostBefore, o.RenterBefore = w.H.avail(), rn.avail()
+	o.HostBal0, o.RenterBal0 = bal(w.H), bal(rn)
+	w.log.reset()
+	n0 := w.trk.count()
+
+	if s.Mid != "" {
+		m.plan.HoldContinue = true
+		m.reached, m.release = make(chan struct{}), make(chan struct{})
+		done := make(chan struct{})
+		go func() {
+			defer close(done)
+			w.call(ctx, o, rn, m, pool, signer, settings, allowance, collateral)
+		}()
+		select {
+		case <-m.reached:
+			// the host has sent its inputs and waits for the signatures
+			w.settle()
+			if s.Mid == "block" {
+				for i := 0; i < 2; i++ {
+					w.mineHost(types.VoidAddress, w.rel == "same" || w.rel == "wallet-behind")
+				}
+			}
+			close(m.release)
+			<-done
+		case <-done: // the exchange ended before it could be parked
+		}
+	} else {
+		w.call(ctx, o, rn, m, pool, signer, settings, allowance, collateral)
+	}
 	m.wait()
 	m.mu.Lock()
 	o.Streams = m.hostConns
@@ -407,6 +487,7 @@ func (w *world) run(s script) *outcome {
 		panic("host handler did not return")
 	}
 	o.Log = w.log.snapshot()
+	o.HostTipEnd = w.cmH.Tip()
 	if os.Getenv("C16_DEBUG") != "" {
 		fmt.Fprintf(os.Stderr, "%d %s host=%v hosterr=%q rentererr=%v renter=%v\n", o.No, s, o.Log.calls, m.hostErr, o.RenterErr, signer.calls)
 	}
@@ -448,6 +529,30 @@ func (w *world) tamper(o *outcome, stage int, name string, wr *wire) {
 			}
 		case "req-dup-inputs":
 			*v.Inputs = append(*v.Inputs, (*v.Inputs)[0].Copy())
+		case "req-no-inputs":
+			*v.Inputs = nil
+		case "req-zero-fee":
+			*v.MinerFee = types.ZeroCurrency
+		case "req-inputs-overflow":
+			// two inputs whose values cannot be summed in 128 bits
+			if len(*v.Inputs) > 0 {
+				if len(*v.Inputs) == 1 {
+					e := (*v.Inputs)[0].Copy()
+					e.ID[0] ^= 0x55
+					*v.Inputs = append(*v.Inputs, e)
+				}
+				(*v.Inputs)[0].SiacoinOutput.Value = types.MaxCurrency
+				(*v.Inputs)[1].SiacoinOutput.Value = types.MaxCurrency
+			}
+		case "req-huge-allowance":
+			switch r := wr.req.(type) {
+			case *proto4.RPCFormContractRequest:
+				r.Contract.Allowance = types.MaxCurrency
+			case *proto4.RPCRenewContractRequest:
+				r.Renewal.Allowance = types.MaxCurrency
+			case *proto4.RPCRefreshContractRequest:
+				r.Refresh.Allowance = types.MaxCurrency
+			}
 		case "req-foreign-input":
 			// name outputs the host has reserved for another exchange as renter inputs
 			if o.Held != nil {
@@ -474,6 +579,20 @@ func (w *world) tamper(o *outcome, stage int, name string, wr *wire) {
 		in := viewInputs(wr.r1)
 		if name == "resp-inputs-short" && len(*in) > 0 {
 			*in = (*in)[:len(*in)-1]
+		}
+		if name == "resp-inputs-overflow" {
+			// the host answers with inputs whose values cannot be summed in 128 bits
+			for len(*in) < 2 {
+				x := types.V2SiacoinInput{SatisfiedPolicy: types.SatisfiedPolicy{Policy: types.PolicyPublicKey(w.hostKey.PublicKey())}}
+				if len(*in) > 0 {
+					x = (*in)[0]
+					x.Parent = (*in)[0].Parent.Copy()
+				}
+				x.Parent.ID[0] ^= byte(0x33 + len(*in))
+				*in = append(*in, x)
+			}
+			(*in)[0].Parent.SiacoinOutput.Value = types.MaxCurrency
+			(*in)[1].Parent.SiacoinOutput.Value = types.MaxCurrency
 		}
 	case 3:
 		v := viewSigs(wr.r2)
